@@ -134,6 +134,9 @@ func (c *RecConn) Read(p []byte) (int, error) {
 var errDeadline = osDeadline()
 
 func (c *RecConn) Write(p []byte) (int, error) {
+	if y := c.Yield; y != nil {
+		y("conn.write") // transport-level delay before the reply leaves (widens handler-returned / reply-written window)
+	}
 	n, err := c.Conn.Write(p)
 	c.log("write", n, err)
 	return n, err
@@ -165,14 +168,16 @@ func (c *RecConn) ServerCloses() int { return int(c.Closes.Load()) }
 
 // MemListener is a net.Listener whose connections are net.Pipe pairs.
 type MemListener struct {
-	Clk     *Stamp
-	ch      chan net.Conn
-	done    chan struct{}
-	once    sync.Once
-	mu      sync.Mutex
-	Conns   []*RecConn
-	Closes  atomic.Int64
-	Accepts atomic.Int64
+	Clk   *Stamp
+	ch    chan net.Conn
+	done  chan struct{}
+	once  sync.Once
+	mu    sync.Mutex
+	Conns []*RecConn
+	// ConnYield, when set before Dial, is installed as Yield on every new connection.
+	ConnYield func(point string)
+	Closes    atomic.Int64
+	Accepts   atomic.Int64
 }
 
 // NewMemListener creates a listener.
@@ -213,7 +218,7 @@ func (l *MemListener) Dial(timeout time.Duration) (net.Conn, *RecConn, error) {
 	cli, srv := net.Pipe()
 	l.mu.Lock()
 	id := len(l.Conns)
-	rc := &RecConn{Conn: srv, ID: id, remote: memAddr(fmt.Sprintf("client-%d", id)), clk: l.Clk}
+	rc := &RecConn{Conn: srv, ID: id, remote: memAddr(fmt.Sprintf("client-%d", id)), clk: l.Clk, Yield: l.ConnYield}
 	l.Conns = append(l.Conns, rc)
 	l.mu.Unlock()
 	select {
